@@ -21,6 +21,7 @@ MODULES = {
     "iee": "spsdk.utils.crypto.iee",
     "bee": "spsdk.image.bee",
     "hab": "spsdk.image.hab.segments",
+    "habrt": "spsdk.image.images",
 }
 
 
@@ -200,6 +201,8 @@ def op_fork(o: dict) -> dict:
             try:
                 os.close(r)
                 ent.d = ent.d + 1_000_000_000 * (ent.forks * 8 + k + 1)
+                global FORK_TAG
+                FORK_TAG = f"-w{k}"  # concurrent processes build in their own folders (sharing one is the user's race, not SPSDK's)
                 arts = []
                 for j, so in enumerate(subops):
                     a = OPS[so["op"]](so)
@@ -355,7 +358,7 @@ def op_hab(o: dict) -> dict:
     )
     cfg = HabConfig(app_image=BinaryImage("app", binary=b"\0" * 64), options=OptionsConfig(flags=0, start_address=0), commands=cmds)
     # the workspace is durable state: it survives "restarts" (epochs) of one history, like a build folder does
-    td = os.path.join(WORKDIR, o.get("ws", "ws0"))
+    td = os.path.join(WORKDIR, o.get("ws", "ws0") + FORK_TAG)
     os.makedirs(td, exist_ok=True)
     dek = CsfHabSegment.get_dek_from_config(cfg, search_paths=[td])
     with open(os.path.join(td, "dek.bin"), "rb") as f:
@@ -363,12 +366,56 @@ def op_hab(o: dict) -> dict:
     return {"kind": "hab_dek", "slots": {"dek": dek.hex()}, "explicit": [], "stored_equal": stored == dek}
 
 
+def op_hab_rt(o: dict) -> dict:
+    """HAB-encrypted i.MX RT boot image through BootImgRT.add_image: an empty dek_key asks SPSDK to choose the key
+    (as the docstring of add_image states), the nonce is self-chosen unless given."""
+    from spsdk.image.images import BootImgRT
+
+    img = BootImgRT(0x2000_0000)
+    explicit = []
+    dek = b""
+    if o.get("variant") == "explicit_dek":
+        dek = _explicit(o.get("x", 0) + 400, 16)
+        explicit.append("dek")
+    img.add_image(bytes(o.get("len", 1024)), address=0x2000_0000, dek_key=dek)
+    return {"kind": "hab_rt", "slots": {"dek": bytes(img.dek_key).hex(), "nonce": bytes(img._nonce).hex()}, "explicit": explicit, "pair": ["dek", "nonce"]}
+
+
+def op_bee_config(o: dict) -> dict:
+    """BEE image the way `nxpimage bee export` builds it: the user gives the key, SPSDK chooses counter and KIB."""
+    from spsdk.image.bee import BeeNxp
+
+    td = os.path.join(WORKDIR, "bee" + FORK_TAG)
+    os.makedirs(td, exist_ok=True)
+    with open(os.path.join(td, "app.bin"), "wb") as f:
+        f.write(bytes(range(256)) * 8)
+    sel = o.get("engines", "engine0")
+    eng = []
+    for i in range(2 if sel == "both" else 1):
+        eng.append({"bee_cfg": {"user_key": _explicit(o.get("x", 0) + 500, 16).hex(), "protected_region": [{"start_address": 0x6000_1000 + i * 0x1000, "length": 0x400, "protected_level": 0}]}})
+    cfg = {"input_binary": "app.bin", "engine_selection": sel, "base_address": 0x6000_1000, "bee_engine": eng}
+    bee = BeeNxp.load_from_config(cfg, search_paths=[td])
+    slots = {}
+    pairs = []
+    for i, h in enumerate(bee.headers):
+        if h is None:
+            continue
+        slots[f"user_key{i}"] = h._sw_key.hex()
+        slots[f"counter{i}"] = h._prdb.counter[:12].hex()
+        slots[f"kib_key{i}"] = h._kib.kib_key.hex()
+        slots[f"kib_iv{i}"] = h._kib.kib_iv.hex()
+    if o.get("export"):
+        bee.export_image()
+    return {"kind": "bee_config", "slots": slots, "explicit": [k for k in slots if k.startswith("user_key")]}
+
+
 WORKDIR = tempfile.gettempdir()
+FORK_TAG = ""
 
 SHARED: dict = {}
 ENT = None
 
-OPS = {"sb2": op_sb2, "sb2_config": op_sb2_config, "fork": op_fork, "mbi_class": op_mbi_class, "mbi_config": op_mbi_config, "otfad": op_otfad, "iee": op_iee, "bee": op_bee, "hab": op_hab}
+OPS = {"sb2": op_sb2, "sb2_config": op_sb2_config, "fork": op_fork, "mbi_class": op_mbi_class, "mbi_config": op_mbi_config, "otfad": op_otfad, "iee": op_iee, "bee": op_bee, "hab": op_hab, "hab_rt": op_hab_rt, "bee_config": op_bee_config}
 
 
 def run_epoch(spec: dict) -> dict:
